@@ -215,21 +215,24 @@ structure St where
 def St.init (bufSize : Nat) (input : Bytes) (sched : List Ev) : St :=
   { src := { opn := [], cap := bufSize, rest := input, sched := sched }, finished := false }
 
-/-- One call of `<rabin::ChunkIter as Iterator>::next`.  `none` = iterator exhausted. -/
+/-- First phase of `next`: the rest of the buffer (at most `min_size` bytes of it) followed by
+`reader.take(min_size - open_buf_len).read_to_end(&mut vec)`.  Returns `vec` and the source afterwards. -/
+def firstPhase (p : Params) (s : Src) : Bytes × Src :=
+  let k := min s.opn.length p.min                     -- open_buf_len (capped by min_size)
+  (s.opn.take k ++ s.rest.take (p.min - k),
+   { s with opn := s.opn.drop k, rest := s.rest.drop (p.min - k) })
+
+/-- One call of `<rabin::ChunkIter as Iterator>::next`.  `none` = iterator exhausted.
+(`size < min_size` of the code is `vec.len() < self.min_size` here: both sides shifted by `open_buf_len`.) -/
 def next (r : Roll σ) (p : Params) (st : St) : Option Bytes × St :=
   if st.finished then (none, st) else
-  let k := min st.src.opn.length p.min           -- open_buf_len (capped by min_size)
-  let vec0 := st.src.opn.take k
-  let need := p.min - k                                -- min_size -= open_buf_len
-  let got := st.src.rest.take need                     -- reader.take(min_size).read_to_end(&mut vec)
-  let src' : Src := { st.src with opn := st.src.opn.drop k, rest := st.src.rest.drop need }
-  let vec := vec0 ++ got
-  if got.length < need then
-    (if vec.isEmpty then none else some vec, { src := src', finished := true })
+  let fp := firstPhase p st.src
+  if fp.1.length < p.min then
+    (if fp.1.isEmpty then none else some fp.1, { src := fp.2, finished := true })
   else
-    let h := r.prefill (p.win - 1) (vec.drop (vec.length - p.win))
-    let res := slideLoop r p src' vec.length h []
-    (some (vec ++ res.1.reverse), { src := res.2.1, finished := res.2.2 })
+    let h := r.prefill (p.win - 1) (fp.1.drop (fp.1.length - p.win))
+    let res := slideLoop r p fp.2 fp.1.length h []
+    (some (fp.1 ++ res.1.reverse), { src := res.2.1, finished := res.2.2 })
 
 /-- Collect chunks; `fuel` bounds the number of `next` calls (a `min = 0` configuration never ends). -/
 def run (r : Roll σ) (p : Params) : Nat → St → List Bytes
